@@ -42,6 +42,10 @@ CLAIMED = {
           "debounce / throttle (all edges, fixed and item-dependent windows) / sample(interval) / buffer_with_time / buffer_with_count_and_time run generated timed scripts; outputs must be source items, at most once, in order, buffers non-empty and bounded and complete on completion, and the (time, notification) list must equal a discrete-event reference model of the documented window semantics. Exploration within the stated bounds (single thread; concurrent producers are covered by the engine-T part when present).",
           "Trusts the discrete-event model in props/c09.rs (documented window semantics + FIFO executor semantics) and the virtual clock.",
           "DESIGN.md §3 C09"),
+  "C10": ("engine-T", "schedule-as-generated-input PBT: real threads under an owned schedule (one runs at a time, yield at every MutArc lock acquisition via the verif_hooks feature); random preemption lists with shrinking plus exhaustive enumeration of all schedules with <= 2 preemptions",
+          "2-3 threads run short scripts (next/complete/error/subscribe/unsubscribe, run-task/advance for scheduler pipelines) against each of the nine thread-safe pipelines; the schedule (which thread holds the baton after which lock acquisition) is part of the generated case. Verdicts: overlapping callbacks on one probe, diverging order between two subscribers of one subject, deadlock (all unfinished threads blocked without progress), lost wake-up, panic. Exploration: random schedules with <= 3 preemptions and complete enumeration of <= 2 preemptions per generated (pipeline, scripts).",
+          "Trusts the controller in engine_t.rs and the MutArc lock hook (rc.rs, feature verif_hooks); sequentially consistent one-thread-at-a-time execution (no weak-memory effects); the real thread pools are replaced by a harness-driven VerifSpawner queue.",
+          "DESIGN.md §3 C10, §2.5"),
   "C11": ("engine-S", "model-based stateful PBT over subscribe/unsubscribe/source-event histories of share / share_threads / publish (proptest tapes + shrinking, bounded-exhaustive short histories) with instrumented upstream (subscription-counting defer, tap counter, live-task count)",
           "Histories by up to three subscribers over cold, hot and periodic sources are applied to the real shared observable and to a model: number of source subscriptions (0 before connect/first subscribe, exactly 1 after), per-subscriber traces, no upstream side effect after the last subscriber left, periodic task retired one period later. All histories of length <= 6 over a compact alphabet are enumerated (thorough). Exploration within those bounds.",
           "Trusts the model in props/c11.rs and the counting instrumentation (defer/tap) placed upstream of the shared observable.",
@@ -54,10 +58,22 @@ CLAIMED = {
           "Generated cold chains (counting source closures, defer factories, poll-counting futures, counting map/filter/scan/tap closures) are built once, then 2-3 clones are subscribed successively and one from inside a callback: all counters must be 0 after building, grow by exactly one per subscription, and every subscription must deliver the reference interpreter's sequence. Exploration within the stated bounds.",
           "Trusts the reference interpreter and the counting wrappers; only operators with a cloneable form are generated (the C03 catalogue).",
           "DESIGN.md §3 C13"),
+  "C19": ("engine-S", "model-based stateful PBT against the public scheduler API on a virtual clock with an owned executor (FIFO prompt / FIFO late / any ready task next): generated task sets x cancel / run / advance / is_closed histories",
+          "One-shot, subscribing, repeating and future-driven tasks with delays are scheduled through the library's own schedule() path; histories cancel handles before the first poll, while pending on the timer and after completion, under three executor models. Checked: at most once / exactly once when never cancelled, never early, consecutive sequence numbers one period apart, no run after cancel or after is_closed() was true, the product of a subscribing task unsubscribed exactly once iff it ran and was cancelled. Exploration within the stated bounds.",
+          "Trusts the virtual clock and VSched (delegates to LocalSpawner::schedule); a cancel racing a running body on another thread is the engine-T part.",
+          "DESIGN.md §3 C19"),
   "C20": ("engine-P", "oracle-from-script PBT (proptest tapes + shrinking) with probes attached to each announced group; bounded-exhaustive enumeration of short inputs; differential check of group_by+flat_map against the reference interpreter",
           "For generated inputs x key functions x terminals (cold and hot sources, Subject and SubjectThreads groups) the global delivery log must equal the source partitioned by key: announcement order, per-item group and step, one terminal per group and for the stream of groups; all inputs of length <= 5 over {0,1,2} are enumerated; flattening the groups must reproduce the source. Exploration within those bounds.",
           "Trusts the list code in props/c20.rs that derives the expected partition from the script; cross-group terminal order is deliberately unconstrained.",
           "DESIGN.md §3 C20"),
+  "C14": ("engine-S", "model-based stateful PBT over source histories interleaved with polls (wake-counting waker) of to_future / collect+to_future / to_stream / the completion-status future; bounded-exhaustive short histories",
+          "Histories of next/complete/error/poll over Subject and SubjectThreads sources are checked against the documented outcome table (single item, Empty, MultipleValues, error, all items, stream elements then end, status flags), readiness (a poll after the terminal is Ready, never Pending) and wake-up delivery (a Pending poll's waker is woken by the terminal). All histories of length <= 6 are enumerated. Exploration within those bounds.",
+          "Trusts the outcome table in props/c14.rs; the producer/waiter thread interleaving is the engine-T part.",
+          "DESIGN.md §3 C14"),
+  "C15": ("engine-S", "invariant-over-history PBT: generated trigger histories (complete / error / unsubscribe / guard drop, repeated through cloned handles) over pipelines containing finalize, counter sampled after every step; re-subscription of clones; bounded-exhaustive trigger orders",
+          "The finalize callback counter is sampled after subscription and after every step: 0 before the first trigger, equal to the number of finalize operators when the triggering step returns, constant afterwards, and the terminal reaches the subscriber before the callback runs; clones subscribed several times are finalized once per subscription. Every trigger order of length <= 5 is enumerated for hot.finalize(). Exploration within those bounds.",
+          "Trusts the counting closures and the step sampling in the engine-P executor.",
+          "DESIGN.md §3 C15"),
   "C16": ("engine-P", "PBT over producer/intermediate/cutter chains with instrumented producers (counting iterator, counting stream, virtual-clock interval) and a scheduler-idleness oracle",
           "Generated chains put a periodic, iterator or stream producer behind 0-3 pass-through operators and an early-terminating operator (producer as main input or as second input of every two-input operator); once the subscriber has its terminal the iterator may be pulled at most once more, the stream polled at most once more, and the scheduler must become idle within one period (no live task, no pending timer). Exploration within the stated bounds.",
           "Trusts the pull/poll counters, the Tracked task wrapper (live task count) and the virtual clock's pending-timer count.",
@@ -103,6 +119,8 @@ m = {
     "add_only": True,
   },
   "engines": [
+    {"name": "engine-T", "path": "/verif/harness/src (engine_t.rs, tworld.rs, hooks.rs, props/c10.rs)", "serves_properties": [c["property_id"] for c in checks if "engine-T" in c["engine"]] + ["C06 (part threads)"],
+     "kind_free_text": "owned-schedule multi-thread executor: real OS threads, exactly one runs at a time, every MutArc lock acquisition is a yield point (verif_hooks), the preemption list is part of the generated case (random + shrinking, exhaustive up to 2 preemptions); deadlock and lost wake-ups are controller verdicts"},
     {"name": "engine-S", "path": "/verif/harness/src (subj.rs, props/c06.rs, props/c17.rs ...)", "serves_properties": [c["property_id"] for c in checks if "engine-S" in c["engine"]],
      "kind_free_text": "stateful model-based testing of API histories: generated operation sequences applied to the real object and to an in-memory model, invariants after every step; random (proptest, shrinking) and bounded-exhaustive (odometer) drivers"},
     {"name": "engine-P", "path": "/verif/harness/src (local.rs, threads.rs, build_body.rs, model.rs, vtime.rs)", "serves_properties": [c["property_id"] for c in checks if "engine-P" in c["engine"]],
